@@ -29,7 +29,7 @@ func genCase(r *lib.Rng, id int64, tier string) drv.Case {
 			c.Proj = append(c.Proj, r.Bool())
 		}
 	}
-	c.Base = r.Pick([]int{1, 1, 1, 1, 2, 0})
+	c.Base = r.Pick([]int{1, 1, 1, 1, 1, 2, 0, 3})
 	if r.Chance(1, 3) {
 		pre := [][]int{{0}, {1}, {0, 1, 3}, {0, 2}, {10001}, {0, 10001, 2}, {5}}
 		c.Pre = [][]int{pre[r.Intn(len(pre))], nil}
@@ -125,6 +125,11 @@ func corpus() []drv.Case {
 			wc("UNPAUSEx"), pub(1, 1), wc("UNPAUSE ok"), pub(0, 3), wc("STOP")}},
 		// fault stream: STOP while the experiment-state file cannot be written must still close every channel file
 		{Proj: pf, Base: 1, Map: -1, Fault: true, Ops: []drv.Op{st(true, true, true), pub(0, 2), pub(1, 1)}},
+		{Proj: pf, Base: 1, Map: -1, Fault: true, FaultStart: &drv.Op{Op: "WC", Req: "START", L22: true, OFF: true}, Ops: []drv.Op{st(false, true, false), pub(0, 1)}},
+		// a rejected START that names a path which cannot be created must not change the remembered base path
+		{Proj: pf, Base: 1, Map: -1, Ops: []drv.Op{{Op: "WC", Req: "START", L22: true, Path: 3}, st(true, false, false), pub(0, 1), wc("STOP"), {Op: "WC", Req: "START", L3: true, Path: 2}, wc("STOP"),
+			{Op: "WC", Req: "START", L3: true, Path: 3}, st(false, true, false), pub(1, 1), wc("STOP")}},
+		{Proj: pf, Base: 3, Map: -1, Ops: []drv.Op{st(true, false, false), {Op: "WC", Req: "START", L22: true, Path: 1}, wc("STOP"), st(true, false, false), pub(0, 1)}},
 		// pause while idle, unpause while idle, stop while idle
 		{Proj: []bool{true}, Base: 1, Map: -1, Ops: []drv.Op{wc("PAUSE"), pub(0, 1), wc("UNPAUSE"), wc("STOP"), wc("PAUSE"), st(true, false, true), pub(0, 2), wc("PAUSED"), pub(0, 2), wc("stopping"), st(false, false, true), pub(0, 1)}},
 	}
@@ -162,6 +167,13 @@ func gen(seed uint64, tier string) []interface{} {
 		if rf.Chance(1, 3) {
 			c.Ops = append(c.Ops, drv.Op{Op: "WC", Req: "PAUSE"})
 		}
+		if rf.Chance(3, 4) { // second stage: the START that follows finds the failed handle
+			o := drv.GenWC(rf, 0, true)
+			if rf.Chance(2, 3) && !o.L22 && !o.L3 && !o.OFF {
+				o.L3 = true
+			}
+			c.FaultStart = &o
+		}
 		out = append(out, c)
 		id++
 	}
@@ -183,7 +195,8 @@ func runOnce(c drv.Case) (lib.Result, bool) {
 		M int
 		O []drv.Op
 		F bool
-	}{c.Proj, c.Base, c.Pre, c.Map, c.Ops, c.Fault})}
+		S *drv.Op
+	}{c.Proj, c.Base, c.Pre, c.Map, c.Ops, c.Fault, c.FaultStart})}
 	s, err := drv.NewSession(&c)
 	if err != nil {
 		panic(err)
@@ -283,10 +296,29 @@ ops:
 	res.Term = fmt.Sprintf("mk %s %s %s %s", c.ConfigTerm(), rs0.Term(), drv.WritersTerm(w0), lib.List(terms))
 	if c.Fault && !tags["request-never-answered"] {
 		if f := s.FaultStop(); f != nil {
-			res.Term = fmt.Sprintf("mkF %s %s %s %s %s %s %s %s", c.ConfigTerm(), rs0.Term(), drv.WritersTerm(w0), lib.List(terms),
-				drv.WritersTerm(f.Writers), lib.Z(int64(f.Open)), lib.B(f.Stored), lib.B(f.Active))
+			fs := "NoFS"
 			outs = append(outs, stepOut{"FAULT-STOP", f})
 			tags["fault-stop"] = true
+			if c.FaultStart != nil && f.Reply != "never answered" {
+				o := *c.FaultStart
+				if g := s.FaultStartStage(o); g != nil {
+					var pubs []string
+					others := false
+					for _, p := range g.Pubs {
+						pubs = append(pubs, fmt.Sprintf("(%s,%s,%s)", lib.Z(int64(p.D22)), lib.Z(int64(p.D3)), lib.Z(int64(p.DOFF))))
+						others = others || p.Others
+					}
+					fs = fmt.Sprintf("(FS %s %d %s %s %s %s %s %s)", drv.StrTerm(o.Req), o.Path, lib.B(o.L22), lib.B(o.L3), lib.B(o.OFF),
+						g.Rep.Term(), lib.List(pubs), lib.B(others))
+					outs = append(outs, stepOut{"FAULT-START", g})
+					tags["fault-start"] = true
+					if g.Rep.Active {
+						tags["fault-start-active"] = true
+					}
+				}
+			}
+			res.Term = fmt.Sprintf("mkF %s %s %s %s %s %s %s %s %s", c.ConfigTerm(), rs0.Term(), drv.WritersTerm(w0), lib.List(terms),
+				drv.WritersTerm(f.Writers), lib.Z(int64(f.Open)), lib.B(f.Stored), lib.B(f.Active), fs)
 		}
 	}
 	res.Impl = outs
